@@ -1,42 +1,69 @@
 #!/venv/bin/python
-"""Confirm a seed and file it:  tools/confirm_seed.py <seed dir> <name>
- - tools/try_seed.py (demo fails patched / passes clean, which quick checks fire, /repo restored)
- - fresh git worktree of /repo HEAD outside /repo and /verif, patch applied, the pinned test suite run there, worktree removed
- - files copied to /verif/seeded/<name>/ with meta.json extended by what was run here."""
+"""Confirm an independently produced breaking change (seed) and file it:  tools/confirm_seed.py <seed dir> <name> [--no-tests]
+Everything happens in ONE fresh git worktree of /repo HEAD under /tmp (never in /repo, removed afterwards):
+ 1. demo.py on the clean worktree must exit 0;
+ 2. patch.diff applied (must apply to HEAD);  demo.py must exit non-zero;
+ 3. every registered quick check run with --root <worktree> (evidence redirected): which ones report a VIOLATION / ANALYSIS-ERROR;
+ 4. the pinned test suite on the patched worktree (pytest -n 8);
+ 5. files copied to /verif/seeded/<name>/, meta.json extended by what was run here."""
+import concurrent.futures as cf
 import json, os, shutil, subprocess, sys, tempfile
 
 seed, name = os.path.abspath(sys.argv[1]), sys.argv[2]
+V = "/verif"
 
 
 def sh(cmd, **kw):
     return subprocess.run(cmd, shell=True, capture_output=True, text=True, **kw)
 
 
-r = sh(f"/venv/bin/python /verif/tools/try_seed.py {seed}")
-res = json.loads(r.stdout[r.stdout.index("{"):])
-wt = tempfile.mkdtemp(prefix="seedwt_", dir="/tmp")
-os.rmdir(wt)
+res = {}
+wt = tempfile.mkdtemp(prefix="seedwt_", dir="/tmp"); os.rmdir(wt)
+scratch = tempfile.mkdtemp(prefix="seedev_", dir="/tmp")
 try:
     assert sh(f"git -C /repo worktree add --detach {wt} HEAD").returncode == 0
+    env = dict(os.environ, PYTHONPATH=wt)
+    r = sh(f"cd /tmp && /venv/bin/python {seed}/demo.py", env=env, timeout=1200)
+    res["demo_clean_exit"] = r.returncode
     a = sh(f"git -C {wt} apply {seed}/patch.diff")
     res["patch_applies_to_head"] = a.returncode == 0
-    base = json.load(open("/root/.vp/BASELINE.json"))
-    t = sh(f"cd {wt} && PYTHONPATH={wt} /venv/bin/python -m pytest -q -p no:cacheprovider --timeout=900 -n 8 2>&1 | tail -1", timeout=3600)
-    res["pinned_tests_on_patched_tree"] = t.stdout.strip()
+    if a.returncode != 0:
+        print("PATCH DOES NOT APPLY", a.stderr); sys.exit(2)
+    r = sh(f"cd /tmp && /venv/bin/python {seed}/demo.py", env=env, timeout=1200)
+    res["demo_patched_exit"] = r.returncode
+    res["demo_patched_tail"] = (r.stdout + r.stderr).strip().splitlines()[-3:]
+    man = json.load(open(f"{V}/MANIFEST.json"))
+
+    def one(pid):
+        rr = sh(f"cd {V} && VERIF_EVIDENCE_DIR={scratch} ./check {pid} --tier quick --root {wt}", timeout=900)
+        if rr.returncode == 1:
+            return pid, sorted({l.split("rule=")[1].split()[0] for l in rr.stdout.splitlines() if "rule=" in l})
+        if rr.returncode == 2:
+            return pid, ["ANALYSIS-ERROR: " + ([l for l in rr.stdout.splitlines() if "ANALYSIS-ERROR" in l] or ["?"])[-1][:200]]
+        return pid, None
+    with cf.ThreadPoolExecutor(6) as ex:
+        res["checks_firing"] = {p: v for p, v in ex.map(one, [c["property_id"] for c in man["checks"]]) if v}
+    if "--no-tests" not in sys.argv:
+        t = sh(f"cd {wt} && PYTHONPATH={wt} /venv/bin/python -m pytest -q -p no:cacheprovider --timeout=900 -n 8 2>&1 | tail -1", timeout=3600)
+        res["pinned_tests_on_patched_tree"] = t.stdout.strip()
 finally:
     sh(f"git -C /repo worktree remove --force {wt}")
-    shutil.rmtree(wt, ignore_errors=True)
-dst = f"/verif/seeded/{name}"
-os.makedirs(dst, exist_ok=True)
-for f in ("patch.diff", "demo.py"):
-    shutil.copy(os.path.join(seed, f), dst)
+    shutil.rmtree(wt, ignore_errors=True); shutil.rmtree(scratch, ignore_errors=True)
+ok = res["demo_clean_exit"] == 0 and res["demo_patched_exit"] != 0 and "85 passed" in res.get("pinned_tests_on_patched_tree", "85 passed")
+dst = f"{V}/seeded/{name}"
 meta = json.load(open(os.path.join(seed, "meta.json")))
 meta["origin"] = "independent sub-agent given only the property text and a scratch worktree"
 meta["confirmed_here"] = {
-    "demo_on_patched_repo_exit": res.get("demo_patched_exit"), "demo_tail": res.get("demo_patched_tail"),
-    "demo_on_clean_repo_exit": res.get("demo_clean_exit"), "pinned_tests_on_patched_tree": res.get("pinned_tests_on_patched_tree"),
+    "demo_on_patched_tree_exit": res.get("demo_patched_exit"), "demo_tail": res.get("demo_patched_tail"),
+    "demo_on_clean_tree_exit": res.get("demo_clean_exit"), "pinned_tests_on_patched_tree": res.get("pinned_tests_on_patched_tree"),
     "quick_checks_reporting_a_violation": res.get("checks_firing"),
-    "how": "git -C /repo apply patch.diff; PYTHONPATH=/repo /venv/bin/python demo.py; every MANIFEST quick_cmd; git -C /repo checkout -- .",
+    "repo_head": sh("git -C /repo rev-parse --short HEAD").stdout.strip(),
+    "how": "fresh worktree of /repo HEAD; demo.py (clean) ; git apply patch.diff; demo.py (patched); every MANIFEST quick_cmd with --root <worktree>; pytest -n 8; worktree removed",
 }
-json.dump(meta, open(os.path.join(dst, "meta.json"), "w"), indent=1)
-print(name, json.dumps(meta["confirmed_here"], indent=1))
+if ok:
+    os.makedirs(dst, exist_ok=True)
+    for f in ("patch.diff", "demo.py"):
+        if os.path.abspath(os.path.join(seed, f)) != os.path.abspath(os.path.join(dst, f)):
+            shutil.copy(os.path.join(seed, f), dst)
+    json.dump(meta, open(os.path.join(dst, "meta.json"), "w"), indent=1)
+print(name, "CONFIRMED" if ok else "NOT CONFIRMED", json.dumps(meta["confirmed_here"], indent=1))
